@@ -195,6 +195,11 @@ type model struct {
 	items    map[string]val
 	isValue  bool
 	rngPos   int
+	// equiv: the resource was built with a message equivalence (here: same a). It only thins out the event
+	// streams - a subscriber is not told of a value equivalent to the one it was sent last - the register
+	// itself stores every successful write.
+	equiv    bool
+	lastSent *val
 }
 
 type outcome struct {
@@ -338,6 +343,10 @@ func (m *model) apply(p op) outcome {
 		}
 		m.items[""] = n
 		out.ret = n.String()
+		if m.equiv && m.lastSent != nil && m.lastSent.a == n.a {
+			return out // stored, nobody is told
+		}
+		m.lastSent = &n
 		out.events = []string{"UPDATE::" + n.String()}
 		return out
 	case "add", "update":
@@ -430,6 +439,9 @@ func (m *model) canon() string {
 	for _, id := range ids {
 		p = append(p, id+"="+m.items[id].String())
 	}
+	if m.equiv {
+		p = append(p, fmt.Sprint("last-sent=", m.lastSent)) // decides whether the next write is announced
+	}
 	return fmt.Sprintf("{%s} rng=%d", strings.Join(p, " "), m.rngPos)
 }
 
@@ -440,6 +452,7 @@ type config struct {
 	Writable        string
 	Lower           bool
 	InterceptorLast bool           // the id interceptor is given after the initial records
+	Equiv           bool           // built with a message equivalence: messages with the same a are equivalent
 	Initial         map[string]val // collection: initial records
 	Name            string
 }
@@ -480,7 +493,14 @@ func runPath(cfg config, path []op) (key, msg string, finalCanon string) {
 		if cfg.Lower && !cfg.InterceptorLast {
 			opts = append(opts, resource.WithIDInterceptor(strings.ToLower))
 		}
-		ref := &model{writable: cfg.Writable, lower: cfg.Lower, items: map[string]val{}, isValue: cfg.IsValue}
+		if cfg.Equiv {
+			opts = append(opts, resource.WithMessageEquivalence(func(x, y proto.Message) bool {
+				xt, _ := x.(*T)
+				yt, _ := y.(*T)
+				return xt != nil && yt != nil && xt.DefaultInt32 == yt.DefaultInt32
+			}))
+		}
+		ref := &model{writable: cfg.Writable, lower: cfg.Lower, items: map[string]val{}, isValue: cfg.IsValue, equiv: cfg.Equiv}
 		var value *resource.Value
 		var col *resource.Collection
 		ctx, cancel := context.WithCancel(context.Background())
@@ -775,6 +795,7 @@ func configs() []config {
 	return []config{
 		{Name: "value", IsValue: true},
 		{Name: "value/writable=a", IsValue: true, Writable: "a"},
+		{Name: "value/equivalence(same a)", IsValue: true, Equiv: true},
 		{Name: "collection"},
 		{Name: "collection/lower-case-ids", Lower: true},
 		{Name: "collection/writable=a", Writable: "a"},
